@@ -28,9 +28,7 @@ def get_reserved_words():
 
     reserved = RESERVED_KEYWORDS
     for word in SQLLexer.tokens | MindsDBLexer.tokens:
-        if '_' not in word:
-            # exclude combinations
-            reserved.add(word)
+        reserved.add(word)
     return reserved
 
 
